@@ -214,6 +214,26 @@ func (r *Region) Origins(v RV) []RV {
 					walk(sv, c, via, d+1)
 					return
 				}
+				// a variable that a function literal captures and nothing reassigns: the value it was given
+				if sv := capturedSingleStore(al); sv != nil {
+					if st := storeOf(al); st != nil && (st.Block() == x.Block() || st.Block().Dominates(x.Block())) {
+						walk(sv, c, via, d+1)
+						return
+					}
+				}
+			}
+			// inside a function literal called in place: a captured variable is what the declaring function gave it
+			if fv, ok := x.X.(*ssa.FreeVar); ok && c != nil {
+				if sv := capturedValue(x); sv != ssa.Value(x) && fv.Parent() != nil {
+					pc := c.parent
+					for pc != nil && pc.fn != fv.Parent().Parent() {
+						pc = pc.parent
+					}
+					if pc != nil {
+						walk(sv, pc, via, d+1)
+						return
+					}
+				}
 			}
 			if ia, ok := x.X.(*ssa.IndexAddr); ok && isInduction(ia.Index) {
 				// element, selected by a loop index, of a literal (or of a variadic parameter: the arguments of the call)
